@@ -59,7 +59,17 @@ ROUTES = {
     "R6": (["-Ginterp"], "cl3.as"),			# client importing from two members of one archive
     "R6q": (["-Q3", "-Fc"], "cl3.as"),
     "R7": (["-Ginterp"], "cl4.as"),			# archive with a long member name (ar name table)
+    "R8": (["-Gloop"], "LOOP"),				# the interactive loop reading the file through #library
 }
+LOOP_SCRIPT = '''#int verbose off
+#int timing off
+#include "axllib"
+#library L "%s"
+import from L;
+import from Foo, SingleInteger;
+print << "@@1:" << bar 7 << " " << baz() << newline;
+print << "@@2:" << bar 8 << newline;
+'''
 SUBST_VALUES = ("x01", "x80", "00", "ff")
 
 
@@ -167,7 +177,7 @@ def make_subjects(binfo, scratch, seed, tier):
         ao = r.files["lx.ao"]
         trace = [(int(e[2]), int(e[3])) for e in vsim.parse_log(r.log)["fs"] if e[0] == "W" and e[1] == "ao"]
         subjects.append({"kind": "ao", "file": "lx.ao", "data": ao, "aux": {"cl.as": CLIENT % b"lx.ao"},
-                         "routes": ["R3c", "R3i", "R3q"], "regions": ao_regions(ao), "trace": trace, "prog": "lx.as", "source": LIB_SRC})
+                         "routes": ["R3c", "R3i", "R3q", "R8"], "regions": ao_regions(ao), "trace": trace, "prog": "lx.as", "source": LIB_SRC})
         d = scratch.new()
         os.makedirs(d)
         open(os.path.join(d, "lx.ao"), "wb").write(ao)
@@ -176,7 +186,7 @@ def make_subjects(binfo, scratch, seed, tier):
         vsim.cleanup_world(d)
         regs = [(0, 8, "armagic"), (8, 68, "arhdr")] + [(lo + 68, hi + 68, "member." + nm) for lo, hi, nm in ao_regions(ao)]
         subjects.append({"kind": "al", "file": "liblx.al", "data": al, "aux": {"cl2.as": CLIENT % b"liblx.al"},
-                         "routes": ["R4"], "regions": regs, "trace": [], "prog": "lx.as", "source": LIB_SRC})
+                         "routes": ["R4", "R8"], "regions": regs, "trace": [], "prog": "lx.as", "source": LIB_SRC})
         # an archive with two members
         r2 = write_world(binfo, scratch, "ly.as", LIB2_SRC)
         if r2.rc == 0 and "ly.ao" in r2.files:
@@ -297,18 +307,34 @@ def read_world(binfo, scratch, subj, route, data, cpu=20):
     files = dict(subj["aux"])
     files[subj["file"]] = data
     w = scratch.new()
-    r = worlds.compile_world(binfo, w, files, opts, [src or subj["file"]], plan_extra=["sbrk cap %d" % (512 << 20)], cpu=cpu)
+    if src == "LOOP":
+        os.makedirs(w, exist_ok=True)
+        with open(os.path.join(w, "script"), "w") as f:
+            f.write(LOOP_SCRIPT % subj["file"])
+        r = worlds.compile_world(binfo, w, files, opts, [], plan_extra=["sbrk cap %d" % (512 << 20), "stdin ../script"], cpu=cpu)
+    else:
+        r = worlds.compile_world(binfo, w, files, opts, [src or subj["file"]], plan_extra=["sbrk cap %d" % (512 << 20)], cpu=cpu)
     vsim.cleanup_world(w)
     return r
 
 
-def judge(r, ref):
+def judge(r, ref, route=None):
     fc = worlds.fault_class(r)
     if fc:
         return fc
     if r.rc == 0:
         if r.files == ref.files and r.out == ref.out:
             return None
+        if route == "R8":
+            # The loop is a session of compilations: a step that refuses the file reports it and
+            # the session goes on, its exit status says nothing about one step.  Refusal here =
+            # a diagnostic was printed and no value was computed that the intact file would not
+            # have produced (a value line that is missing is a refused step; all value lines
+            # present and right, plus a diagnostic, is the intact result with a complaint).
+            vals = [l for l in r.out.split(b"\n") if b"@@" in l]
+            refvals = [l for l in ref.out.split(b"\n") if b"@@" in l]
+            if worlds.has_diag(r) and all(v in refvals for v in vals):
+                return None
         return "silent-wrong"
     if worlds.has_diag(r):
         return None
@@ -334,7 +360,7 @@ def main(argv):
                     "aux": dict((k, v.encode("latin-1")) for k, v in rp["aux"].items()), "regions": []}
             ref = read_world(binfo, scratch, subj, rp["route"], subj["data"])
             r = read_world(binfo, scratch, subj, rp["route"], apply_damage(subj["data"], tuple(rp["damage"])))
-            cls = judge(r, ref)
+            cls = judge(r, ref, rp["route"])
             vsim.say("replay: class=%s rc=%r %s" % (cls, r.rc, (r.out + r.err)[-200:].decode("latin-1", "replace").replace("\n", " | ")))
             if cls:
                 vsim.say("VIOLATION property=%s replay=%s" % (PID, replay))
@@ -361,7 +387,7 @@ def main(argv):
             results += vsim.pmap(lambda c: read_world(binfo, scratch, subjects[c[0]], c[1], apply_damage(subjects[c[0]]["data"], c[2])),
                                  cases[b0:b0 + B])
         done = len(results)
-        verd = [judge(r, refs[(c[0], c[1])]) for c, r in zip(cases[:done], results)]
+        verd = [judge(r, refs[(c[0], c[1])], c[1]) for c, r in zip(cases[:done], results)]
 
         # crash states of the real writer (explored, reported, not gated: they are not
         # truncations of the valid file because the header is written last)
@@ -411,7 +437,7 @@ def main(argv):
             si, rt, dmg = cases[i]
             s = subjects[si]
             r2 = read_world(binfo, scratch, s, rt, apply_damage(s["data"], dmg))
-            v2 = judge(r2, refs[(si, rt)])
+            v2 = judge(r2, refs[(si, rt)], rt)
             if v2 != verd[i]:
                 out.nondet.append("case %d: violation %s did not reproduce (%s)" % (i, key, v2))
                 continue
